@@ -13,7 +13,7 @@ wt="$(mktemp -d /tmp/mw.XXXXXX)"; vd="$(mktemp -d /tmp/vm.XXXXXX)"
 cleanup() { git -C /repo worktree remove --force "$wt" >/dev/null 2>&1; rm -rf "$wt" "$vd"; }
 trap cleanup EXIT
 rmdir "$wt"; git -C /repo worktree add -q "$wt" "${BASE:-HEAD}" || exit 2
-git -C "$wt" apply "$patch" || { echo "patch does not apply"; exit 2; }
+git -C "$wt" apply "$patch" 2>/dev/null || git -C "$wt" apply -3 "$patch" || { echo "patch does not apply"; exit 2; }
 ( cd "$wt" && go build ./... && go vet ./... >/dev/null 2>&1 ) || { echo "MUTANT INVALID: does not build/vet"; exit 3; }
 if ! ( cd "$wt" && go test -count=1 ./... >"$vd.testlog" 2>&1 ); then echo "MUTANT INVALID: existing tests fail"; grep -E "^(---|FAIL)" "$vd.testlog" | head; rm -f "$vd.testlog"; exit 3; fi
 rm -f "$vd.testlog"
